@@ -123,16 +123,33 @@ Lemma zz_eqb_true : forall a b : Z * Z, pair_eqb Z.eqb Z.eqb a b = true -> a = b
 Proof. apply pair_eqb_true; apply Z_eqb_true. Qed.
 Lemma zz_eqb_refl : forall a : Z * Z, pair_eqb Z.eqb Z.eqb a a = true.
 Proof. apply pair_eqb_refl; apply Z.eqb_refl. Qed.
+Lemma zz_eqb_true' : forall a b, zz_eqb a b = true -> a = b. Proof. exact zz_eqb_true. Qed.
+Lemma zz_eqb_refl' : forall a, zz_eqb a a = true. Proof. exact zz_eqb_refl. Qed.
+Lemma l1_eqb_true : forall a b, l1_eqb a b = true -> a = b.
+Proof.
+  intros [] [] E. unfold l1_eqb in E. cbn in E. bool_hyps.
+  apply (option_eqb_true _ _ zz_eqb_true') in H1. apply (option_eqb_true _ _ zz_eqb_true') in H0. congruence.
+Qed.
+Lemma l1_eqb_refl : forall a, l1_eqb a a = true.
+Proof. intros []. unfold l1_eqb. cbn. rewrite Z.eqb_refl, !(option_eqb_refl _ _ zz_eqb_refl'). reflexivity. Qed.
+Lemma mdata_eqb_true : forall a b, mdata_eqb a b = true -> a = b.
+Proof.
+  intros [] [] E. unfold mdata_eqb in E. cbn in E. bool_hyps. apply l1_eqb_true in H.
+  apply (option_eqb_true _ _ zz_eqb_true') in H0. congruence.
+Qed.
+Lemma mdata_eqb_refl : forall a, mdata_eqb a a = true.
+Proof. intros []. unfold mdata_eqb. cbn. rewrite l1_eqb_refl, (option_eqb_refl _ _ zz_eqb_refl'). reflexivity. Qed.
+
 Lemma iobs_eqb_true : forall a b, iobs_eqb a b = true -> a = b.
 Proof.
   intros [[a1 a2] a3] [[b1 b2] b3] E. unfold iobs_eqb in E. cbn in E. bool_hyps.
   apply omap_eqb_true in H. apply (option_eqb_true _ _ pos_eqb_true) in H1.
-  apply (option_eqb_true _ _ zz_eqb_true) in H0. congruence.
+  apply mdata_eqb_true in H0. congruence.
 Qed.
 Lemma iobs_eqb_refl : forall a, iobs_eqb a a = true.
 Proof.
   intros [[a1 a2] a3]. unfold iobs_eqb. cbn.
-  rewrite omap_eqb_refl, (option_eqb_refl _ _ pos_eqb_refl), (option_eqb_refl _ _ zz_eqb_refl). reflexivity.
+  rewrite omap_eqb_refl, (option_eqb_refl _ _ pos_eqb_refl), mdata_eqb_refl. reflexivity.
 Qed.
 
 Lemma sendout_eqb_true : forall R (eqb : R -> R -> bool), (forall a b, eqb a b = true -> a = b) ->
@@ -191,7 +208,7 @@ Qed.
 
 Definition res_of (m : mres) : result :=
   match m with MAudit a => RAudit a | MAlgo a => RAlgo a | MAction a => RAction a | MNone => RNone end.
-Definition iobs_of (s : state) := map (fun i => (i_orders i, i_pos i, i_last i)) (insts s).
+Definition iobs_of (s : state) := map (fun i => (i_orders i, i_pos i, i_data i)) (insts s).
 Definition deliv_of (s : state) := map (mbox (links s)) (nat_seqN (length (links s))).
 Definition obs_of (s : state) (m : mres) : obs := mkObs (trading s) (deliv_of s) (iobs_of s) (res_of m).
 
@@ -393,9 +410,12 @@ Qed.
 Lemma update_state_static : forall s ev,
   map inst_static (insts (fst (update_state s ev))) = map inst_static (insts s).
 Proof.
-  intros s ev. destruct ev; cbn; try reflexivity; try (apply map_updN_inv; intros x; reflexivity).
-  destruct (nthN (insts s) i) as [x|]; [|reflexivity].
-  destruct (trade_pos (i_pos x) i sd q). cbn. apply map_updN_inv. intros y. reflexivity.
+  intros s ev. destruct ev as [|c|b|o sn|l|k ok|i sd q| |i t p|i t b| |]; cbn; try reflexivity;
+    try (apply map_updN_inv; intros x; reflexivity).
+  - generalize (insts s). induction l as [|p t IH]; intros is_; [reflexivity|]. cbn [fold_left].
+    rewrite IH. apply map_updN_inv. intros x. reflexivity.
+  - destruct (nthN (insts s) i) as [x|]; [|reflexivity].
+    destruct (trade_pos (i_pos x) i sd q). cbn. apply map_updN_inv. intros y. reflexivity.
 Qed.
 
 Lemma state_wf_clear : forall s, state_wf (clear_state s) = state_wf s.
